@@ -192,6 +192,16 @@ def rounds(ctx):
     qq = [i for i, v in enumerate(f.adts[BREQ]["variants"]) if v["name"] == "QuitQuietly"]
     quit_idx = [i for i, v in enumerate(f.adts[BRESP]["variants"]) if v["name"] == "Quit"]
     out = []
+
+    def two(p, term):
+        """discriminant of a two-variant value (Result / Option) on this path: 0 / 1 / None"""
+        d = p.state.discr.get(term)
+        if isinstance(d, int):
+            return d
+        if isinstance(d, tuple) and d and d[0] == "not" and len(d[1]) == 1 and list(d[1])[0] in (0, 1):
+            return 1 - list(d[1])[0]
+        return None
+
     for p in paths:
         acts = summarize(p)
         kinds = [a for a, _ in acts]
@@ -201,18 +211,18 @@ def rounds(ctx):
             out.append(r)
             continue
         T = reads[0].result if reads[0].result is not None else tform(("await", tform(reads[0].args[0])))
-        dT = p.state.discr.get(T)
+        dT = two(p, T)
         R = ("field", ("as", T, "Ok"), "0")
         O = ("field", ("as", R, "Ok"), "0")
         req = ("field", ("as", O, "Some"), "0")
         if dT == 1:
             r["frame"] = "timeout"
         elif dT == 0:
-            dR = p.state.discr.get(R)
+            dR = two(p, R)
             if dR == 1:
                 r["frame"] = "read-error"
             elif dR == 0:
-                dO = p.state.discr.get(O)
+                dO = two(p, O)
                 if dO == 0:
                     r["frame"] = "eof"
                 elif dO == 1:
@@ -225,7 +235,7 @@ def rounds(ctx):
         r["resp"] = None
         r["resp_quit"] = None
         if len(disp) == 1:
-            d = p.state.discr.get(disp[0].result)
+            d = two(p, disp[0].result)
             r["resp"] = "some" if d == 1 else "none" if d == 0 else None
             if d == 1:
                 rv = ("field", ("as", disp[0].result, "Some"), "0")
@@ -235,7 +245,7 @@ def rounds(ctx):
         w = [e for a, e in acts if a == "write"]
         r["write"] = None
         if w:
-            dw = p.state.discr.get(w[0].result)
+            dw = two(p, w[0].result)
             r["write"] = "err" if dw == 1 else "ok"
         out.append(r)
     ctx._cache["c12.rounds"] = (b, out)
